@@ -32,15 +32,16 @@ type muxFault struct {
 }
 
 type muxScenario struct {
-	SID    string    `json:"sid"`
-	Kind   string    `json:"kind"`
-	Period int       `json:"period"`
-	Seed   uint64    `json:"seed"`
-	Ops    []muxOp   `json:"ops"`
-	Fault  *muxFault `json:"fault,omitempty"`
-	Demux  bool      `json:"demux,omitempty"`
-	Reuse  bool      `json:"reuse,omitempty"`  // the caller keeps one PacketAdaptationField object per class and passes it to every WriteData
-	Shadow bool      `json:"shadow,omitempty"` // a second, unrelated Muxer lives in the same process and is used between the calls
+	SID       string    `json:"sid"`
+	Kind      string    `json:"kind"`
+	Period    int       `json:"period"`
+	Seed      uint64    `json:"seed"`
+	Ops       []muxOp   `json:"ops"`
+	Fault     *muxFault `json:"fault,omitempty"`
+	Demux     bool      `json:"demux,omitempty"`
+	SharedHdr bool      `json:"sharedhdr,omitempty"` // one PESHeader object (stream id 0 = the muxer's choice) is handed to the WriteData calls of every stream
+	Reuse     bool      `json:"reuse,omitempty"`     // the caller keeps one PacketAdaptationField object per class and passes it to every WriteData
+	Shadow    bool      `json:"shadow,omitempty"`    // a second, unrelated Muxer lives in the same process and is used between the calls
 }
 
 // ---------- recording / fault-injecting writer ----------
@@ -189,6 +190,8 @@ func runMuxOn(sc *muxScenario, rec *recorder, w *recWriter) {
 	}
 	rec.ev(M{"ev": "reset", "t": sc.SID, "kind": "mux", "period": period, "fmode": fmode, "fat": fat})
 	afCache := map[string]*astits.PacketAdaptationField{}
+	hdrCache := map[string]*astits.PESHeader{}
+	stOf := map[int]int{} // stream type of every PID added
 	var autoPIDs []int
 	resolve := func(p int) int {
 		if p < 0 {
@@ -255,6 +258,7 @@ func runMuxOn(sc *muxScenario, rec *recorder, w *recWriter) {
 				if err == nil {
 					s := astits.VerifMuxerState(m)
 					apid = int(s.StreamPIDs[len(s.StreamPIDs)-1])
+					stOf[apid] = op.ST
 					if op.PID == 0 {
 						autoPIDs = append(autoPIDs, apid)
 					}
@@ -268,6 +272,19 @@ func runMuxOn(sc *muxScenario, rec *recorder, w *recWriter) {
 				n, err = m.WriteTables()
 			case "data":
 				hdr := buildPESHeader(op.Hdr, op.SID, r)
+				if sc.SharedHdr && op.SID == 0 && op.Hdr != "none" {
+					// one header object, stream id left to the muxer, handed to the calls of every stream: the id the muxer picks for
+					// one stream must not stick to the object
+					if c, ok := hdrCache[op.Hdr]; ok {
+						hdr = c
+					} else {
+						hdrCache[op.Hdr] = hdr
+					}
+				}
+				sidBefore := hdr.StreamID
+				if op.SID == 0 && op.Hdr != "none" {
+					sidBefore = 0 // what the caller asked for, whatever an earlier call left in a shared object
+				}
 				af := buildAF(op.AF, r)
 				if sc.Reuse && af != nil {
 					if c, ok := afCache[op.AF]; ok {
@@ -284,7 +301,12 @@ func runMuxOn(sc *muxScenario, rec *recorder, w *recWriter) {
 				e["len"] = op.Len
 				e["dg"] = digest(keep)
 				e["intact"] = bytes.Equal(keep, payload)
-				e["hdr"] = projPESHeader(hdr)
+				want := *hdr
+				want.StreamID = sidBefore
+				if st, ok := stOf[resolve(op.PID)]; ok && sidBefore == 0 {
+					want.StreamID = astits.StreamType(st).ToPESStreamID() // the muxer's choice depends on the stream's type only
+				}
+				e["hdr"] = projPESHeader(&want)
 				e["hclass"] = op.Hdr
 				e["af"] = afp
 				e["hasaf"] = af != nil
